@@ -222,7 +222,7 @@ def run(M, rec, tier, seed, k, n):
     rng = random.Random(seed * 1000 + k + 1200)
     g = G.NetGen(rng)
     sh = W.shapes_cycle()
-    for it in range(170 if tier == "quick" else 1400):
+    for it in range(170 if tier == "quick" else 2500):
         shape = next(sh)
         desc = g.all_kinds_network() if it % 5 == 0 else g.network(shape)[1]
         rec.seen("net_signatures", D.signature(desc))
